@@ -120,8 +120,32 @@ def _verify_cases_ok(draw):
 
 
 @st.composite
-def _verify_cases(draw, kinds=("root", "root-ok", "delegation", "delegation-ok", "delegation-ok", "malformed", "malformed")):
+def _verify_cases(draw, kinds=("root", "root-ok", "delegation", "delegation-ok", "delegation-ok", "malformed", "malformed", "numeric-spelling")):
     kind = draw(st.sampled_from(list(kinds)))
+    if kind == "numeric-spelling":
+        # numbers as another JSON producer writes them: 2.0 for 2, true for 1 (the library's integer check lets integral
+        # floats and booleans through; whatever the library decides, the command line must report exactly that)
+        seeds = draw(keys.seed_lists(1, 3))
+        pubs = [keys.pub_hex(x) for x in seeds]
+        v = draw(st.integers(1, 60))
+        spell = draw(st.sampled_from(["float-both", "float-T", "float-N", "true-T", "float-threshold", "float-both-skip"]))
+        vT, vN = v, v + (2 if spell == "float-both-skip" else 1)
+        if spell in ("float-both", "float-T", "float-both-skip"):
+            vT = float(vT)
+        if spell in ("float-both", "float-N", "float-both-skip"):
+            vN = float(vN)
+        if spell == "true-T":
+            vT, vN = True, 2
+        thr = 1.0 if spell == "float-threshold" else 1
+        dele = lambda: {"root": {"pubkeys": pubs, "threshold": thr}, "key_mgr": {"pubkeys": pubs[:1], "threshold": 1}}
+        what = draw(st.sampled_from(["root", "root", "key_mgr"]))
+        T = GM.wrap(GM.signed_part("root", dele(), version=vT))
+        if what == "root":
+            U = GM.sign_envelope(GM.wrap(GM.signed_part("root", dele(), version=vN)), seeds, True)
+        else:
+            U = GM.sign_envelope(GM.wrap(GM.signed_part("key_mgr", {"pkg_mgr": {"pubkeys": pubs[:1], "threshold": thr}}, version=vN)),
+                                 seeds[:1], False)
+        return {"kind": kind, "T": T, "U": U, "flaw": spell + "/" + what}
     if kind == "root-ok":
         T, N = C02.build_chain(draw(C02._chain_cases()))
         return {"kind": kind, "T": T, "U": N, "flaw": "none"}
